@@ -320,6 +320,83 @@ fn run_inner(ctx: &Ctx, dump_dir: &Path, torn_dir: &Path) -> i32 {
             );
         }
     }
+    // ---- dump histories in one directory: every ordered pair of tuples over a neighbour alphabet (values a few ulp or a
+    // tiny absolute amount apart, and values equal in all but one field), and every triple over a smaller one: the reload
+    // returns the LAST tuple dumped, whatever the directory held before
+    {
+        let up = |x: f64| f64::from_bits(x.to_bits() + 1);
+        let bs = [1.001, up(1.001), 1.001 * (1.0 + 1e-9), 2.0, 1.0 + f64::EPSILON, 1.0 + 2.0 * f64::EPSILON];
+        let az = [0.0, 5e-324, 1e-17, 3e-17, 1e-16, 2.5e-300, 1e-20, 0.3, 0.30000000000000004, 20.0, up(20.0), 20.0 * (1.0 + 1e-12)];
+        let ms = [4096u64, 4097];
+        let qs = [65534u64, 65535];
+        let mut tuples = Vec::new();
+        for b in bs {
+            for a in az {
+                for m in ms {
+                    for q in qs {
+                        tuples.push(P { b, m, a, q });
+                    }
+                }
+            }
+        }
+        let hist_check = |hist: &[P]| -> Option<String> {
+            let r = guarded_mut(|| {
+                for p in hist {
+                    SetSketchParams::new(p.b, p.m, p.a, p.q).dump_json(dump_dir)?;
+                }
+                SetSketchParams::reload_json(dump_dir)
+            });
+            let last = hist.last().unwrap();
+            match r {
+                Err(pn) => Some(format!("panic {}", pn)),
+                Ok(Err(e)) => Some(format!("error {}", e)),
+                Ok(Ok(r)) => match compare(last, &r) {
+                    RT::Ok { .. } => None,
+                    RT::Bad(w) => Some(w),
+                },
+            }
+        };
+        let mut reported = false;
+        let stride = ctx.pick(5usize, 1);
+        for (i, first) in tuples.iter().enumerate() {
+            for (j, second) in tuples.iter().enumerate() {
+                // quick: pairs that differ in exactly one field, plus a fifth of all others
+                let nd = (first.b != second.b) as u8 + (first.a != second.a) as u8 + (first.m != second.m) as u8 + (first.q != second.q) as u8;
+                if nd != 1 && (i + j) % stride != 0 {
+                    continue;
+                }
+                overwrite_checked += 1;
+                if let Some(w) = hist_check(&[*first, *second]) {
+                    if !reported {
+                        reported = true;
+                        ctx.violation(
+                            "overwrite",
+                            &format!("dump of {:?} over an existing dump of {:?}, then reload: {}", second, first, w),
+                            json!({"kind": "overwrite", "first": p_json(first), "second": p_json(second)}),
+                        );
+                    }
+                }
+            }
+        }
+        let small: Vec<P> = az.iter().take(8).map(|a| P { b: 1.001, m: 4096, a: *a, q: 65534 }).collect();
+        for x in &small {
+            for y in &small {
+                for z in &small {
+                    overwrite_checked += 1;
+                    if let Some(w) = hist_check(&[*x, *y, *z]) {
+                        if !reported {
+                            reported = true;
+                            ctx.violation(
+                                "overwrite",
+                                &format!("dumps of {:?}, {:?}, {:?} into one directory, then reload: {}", x, y, z, w),
+                                json!({"kind": "overwrite3", "first": p_json(x), "second": p_json(y), "third": p_json(z)}),
+                            );
+                        }
+                    }
+                }
+            }
+        }
+    }
     // ---- crash points: every strict prefix of the dumped file
     let n_cp = ctx.pick(96u64, 2048);
     let mut st = TornStats { prefixes: 0, err: 0, panics: 0, ok_same: 0, ok_other: 0, first_panic: None, first_other: None, first_oksame: None };
@@ -412,7 +489,7 @@ fn run_inner(ctx: &Ctx, dump_dir: &Path, torn_dir: &Path) -> i32 {
     let coverage = json!({
         "evaluations": n_rt + st.prefixes + env_cases + overwrite_checked,
         "distinct_nontrivial": distinct.len() as u64 + st.prefixes,
-        "rule": "round trip: cross product of an 18-float x 9-integer boundary alphabet plus seeded bit-pattern tuples, distinct by (b,m,a,q) bit patterns; crash points: for each of the crash tuples EVERY strict byte prefix (0..len-1) of the real dumped file is written and reloaded, each prefix is a distinct non-trivial case; plus missing file, missing directory, directory in place of the file, dump over an existing dump",
+        "rule": "round trip: cross product of an 18-float x 9-integer boundary alphabet plus seeded bit-pattern tuples, distinct by (b,m,a,q) bit patterns; crash points: for each of the crash tuples EVERY strict byte prefix (0..len-1) of the real dumped file is written and reloaded, each prefix is a distinct non-trivial case; plus missing file, missing directory, directory in place of the file, dump histories in one directory (long over short and back; all ordered pairs over a 288-tuple neighbour alphabet - fields a few ulp or a tiny absolute amount apart - that differ in one field, a fifth (thorough: all) of the other pairs, all triples over 8 values of a): the reload returns the last tuple dumped",
         "samples": [
             {"dumped_file": sample_file},
             {"crash_point": {"params": p_json(&cp_tuples[0]), "prefix_len": 17}},
@@ -480,6 +557,14 @@ pub fn replay(_ctx: &Ctx, case: &Value) -> Result<(bool, String), String> {
                 SetSketchParams::new(first.b, first.m, first.a, first.q).dump_json(&dump_dir)?;
                 SetSketchParams::new(second.b, second.m, second.a, second.q).dump_json(&dump_dir)?;
                 let o = reload_outcome(&dump_dir, &second);
+                Ok((o != Torn::OkSame, format!("{:?}", o)))
+            }
+            Some("overwrite3") => {
+                let hist = [p_from_json(&case["first"])?, p_from_json(&case["second"])?, p_from_json(&case["third"])?];
+                for p in &hist {
+                    SetSketchParams::new(p.b, p.m, p.a, p.q).dump_json(&dump_dir)?;
+                }
+                let o = reload_outcome(&dump_dir, &hist[2]);
                 Ok((o != Torn::OkSame, format!("{:?}", o)))
             }
             _ => Err("kind".into()),
